@@ -5,6 +5,7 @@ from common.check import PropertyCheck, Skip
 from mitmproxy import exceptions, flow as mflow, flowfilter, tcp, udp
 from mitmproxy.addons import view as mview
 from mitmproxy.test import taddons, tflow, tutils
+from mitmproxy.utils import human
 
 warnings.simplefilter("ignore", DeprecationWarning)
 logging.disable(logging.CRITICAL)
@@ -69,6 +70,28 @@ def mutate(f, kind, a):
         f.response = tflow.tdnsflow(resp=True).response if a["rsp"] else None
 
 
+def eb(b):
+    return bytes(b).hex() if b else "_"
+
+
+def flow_data(f, kind):
+    """what the four key generators read of a flow, for the Lean transcription `genKey` (not via `generate`)"""
+    ts = int(f.timestamp_created)
+    if kind == "http":
+        rq = f.request.raw_content
+        rs = "X" if f.response is None else ("N" if f.response.raw_content is None else str(len(f.response.raw_content)))
+        return f"h:{ts}:{eb(f.request.method.encode())}:{eb(f.request.url.encode())}:{'N' if rq is None else len(rq)}:{rs}"
+    if kind in ("tcp", "udp"):
+        ls = ",".join(str(len(m.content)) for m in f.messages) or "-"
+        return f"t:{ts}:{int(kind == 'tcp')}:{eb(human.format_address(f.server_conn.address).encode())}:{ls}"
+    q = eb(f.request.questions[0].name.encode()) if f.request.questions else "N"
+    return f"d:{ts}:{f.request.op_code}:{q}:{f.response.size if f.response else 'N'}"
+
+
+def show_key(v):
+    return "n%d" % int(v) if isinstance(v, (int, float)) else "s" + eb(v.encode())
+
+
 def _rank_tables():
     """order-preserving maps from the string sort keys of the pool to naturals (the model sorts naturals)"""
     v = mview.View()
@@ -112,27 +135,36 @@ class Check(PropertyCheck):
                   "stored; flows whose last change the view has seen are listed iff they match, and are sorted), "
                   "view_eq_sorted_filter_current (no unreported change pending: list(view) = permutation of the matching stored "
                   "flows, sorted, reversed on request), each_once, focus_in_view_or_empty, settings_subset_store, "
-                  "signals_match_changes, update_is_announced, never_crashes — proved from an inductive invariant (store/view "
-                  "duplicate-free, view within the store, view sorted by cached keys, cached keys and visibility of non-stale "
-                  "flows current). Model tied to the real addon by differential runs: after every operation list(view), focus, "
-                  "store order, settings ids and the exact signal sequence are compared.")
+                  "signals_match_changes, update_is_announced, never_crashes — from an inductive invariant; the refinement to "
+                  "`filter the store, then stable sort`: sorted_list_is_stable_sort (bisect_right insertion = stable sort), "
+                  "refilter_is_stable_sort_of_store and set_order_is_stable_sort_of_view (exact equalities right after those "
+                  "operations), view_is_sort_when_keys_distinct (exact always when keys are pairwise different); the four key "
+                  "generators as Lean code genKey with real_keys_total_preorder (Python's <= on their values is a total preorder "
+                  "per order) and view_sorted_by_generated_keys. Tie: after every operation list(view), focus, store order, "
+                  "settings ids and the exact signal sequence are compared; genKey and SortKey.le are compared with the real "
+                  "generate() values and Python's <= on flows of every type (incl. OPCODE(n), non-ASCII names, missing content).")
     level_note = ("flows may change without the view being told (`mutate`); for such a flow, until its next add/update or a "
-                  "re-filter, only `listed => stored, once` is claimed and it is left out of the sortedness claim. trusted: sortedcontainers.SortedListWithKey behaves as a sorted list with bisect_right insertion (tied "
-                  "differentially, not proved); flowfilter verdicts and the four key generators are evaluated by the real code "
-                  "at every change and fed to the model as data (keys mapped order-preservingly to naturals); list arguments are modelled as the "
-                  "sequence of single-flow operations; commands that only wrap these (duplicate/create/load_file/resolve) are not "
-                  "modelled; sort stability among equal keys is not part of the statement and not demanded by the oracle.")
+                  "re-filter, only `listed => stored, once` is claimed and it is left out of the sortedness claim. With ties the "
+                  "order among equal keys is the order of (re-)insertion and depends on the history (proved stable only at "
+                  "re-filter / re-order); the statement does not fix it and the oracle does not demand it. trusted: "
+                  "sortedcontainers.SortedListWithKey behaves as a sorted list with bisect_right insertion and key-based lookup "
+                  "(tied differentially, not proved); flowfilter verdicts are evaluated by the real code and fed to the model as "
+                  "data; the state machine sorts naturals that the harness derives order-preservingly from the real keys "
+                  "(view_sorted_by_generated_keys takes that as its hypothesis; the keys themselves and their order are modelled "
+                  "and tied); request.url, format_address and dns size enter genKey as data; list arguments are modelled as the "
+                  "sequence of single-flow operations; duplicate/create/load_file/resolve are not modelled.")
     technique = "Lean 4 proof (invariant induction over operation sequences) + differential model-vs-addon correspondence"
     rule = ("a pool of 2-5 flows of types http/tcp/udp/dns; sequences of <=25 operations; every add/update/mutate carries fresh "
             "abstract attributes (timestamp, method/op-code, url/address/name, size, mark, error, response) from small pools so "
             "that keys tie and filter verdicts flip; thorough adds all sequences of <=3 operations over 2 flows from a 16-op "
-            "alphabet. distinct = distinct observable trace; non-trivial = view non-empty at some point.")
+            "alphabet; 6 % of the cases are `keys` cases (flows of every type in random states: every generate() value and "
+            "every pairwise <= against genKey / SortKey.le). distinct = distinct observable trace; non-trivial = view non-empty at some point.")
     budget = {"quick": 1200, "thorough": 70000}
     time_budget = {"quick": 22, "thorough": 420}
     fingerprints = ["mitmproxy.addons.view:View", "mitmproxy.addons.view:Focus", "mitmproxy.addons.view:Settings",
                     "mitmproxy.addons.view:_OrderKey", "mitmproxy.addons.view:OrderRequestStart",
                     "mitmproxy.addons.view:OrderRequestMethod", "mitmproxy.addons.view:OrderRequestURL",
-                    "mitmproxy.addons.view:OrderKeySize"]
+                    "mitmproxy.addons.view:OrderKeySize", "mitmproxy.net.dns.op_codes:to_str"]
     trusted_base = ["sortedcontainers.SortedListWithKey (add = insert at bisect_right of the key; remove/index/contains by key then identity)",
                     "mitmproxy.flowfilter verdicts (property C42) and the key generators' inputs, evaluated by the real code"]
     parallel = False
@@ -165,6 +197,11 @@ class Check(PropertyCheck):
         if tier == "thorough":
             yield from self.exhaustive(tier)
         while True:
+            if rng.chance(0.06):
+                n = rng.randint(2, 5)
+                yield {"kind": "keys", "pool": [rng.pick(TYPES) for _ in range(n)],
+                       "attrs": [dict(self.gen_attr(rng), m=rng.randrange(8), x=rng.randrange(3)) for _ in range(n)]}
+                continue
             n = rng.randint(2, 5)
             pool = [rng.pick(TYPES) for _ in range(n)]
             if rng.chance(0.3): pool[:4] = TYPES[:len(pool[:4])]
@@ -192,6 +229,7 @@ class Check(PropertyCheck):
 
     @staticmethod
     def _valid(case):
+        if case.get("kind") == "keys": return len(case["pool"]) == len(case["attrs"]) > 0
         n = len(case["pool"])
         for op in case["ops"]:
             if op[0] in ("add", "update", "mutate") and any(x[0] >= n for x in op[1]): return False
@@ -199,9 +237,39 @@ class Check(PropertyCheck):
             if op[0] in ("focus", "setval") and op[1] >= n: return False
         return n > 0
 
+    def _keys_case(self, case):
+        """flows of the pool in the described states: the real keys, their renderings, and what the Lean genKey reads"""
+        v = mview.View()
+        flows = []
+        for kind, a in zip(case["pool"], case["attrs"]):
+            f = make_flow(kind); mutate(f, kind, dict(a, m=a["m"] % 3))
+            if kind == "dns":
+                f.request.op_code = a["m"]                                    # also op-codes without a name
+                if a["x"] == 1 and f.request.questions: f.request.questions[0].name = "b\u00fccher.example"
+            if kind == "http" and a["x"] == 2: f.request.content = None
+            if kind == "http" and a["x"] == 1 and f.response is not None: f.response.content = None
+            flows.append(f)
+        gens = [(sl, v.orders[name]) for name, sl in SLOT.items()]
+        return v, flows, gens
+
+    def _keys_lines(self, case):
+        v, flows, gens = self._keys_case(case)
+        lines = [f"keygen {sl} {flow_data(f, k)}" for sl, g in gens for f, k in zip(flows, case["pool"])]
+        for sl, g in gens:
+            ks = [show_key(g.generate(f)) for f in flows]
+            lines += [f"keyle {a} {b}" for a in ks for b in ks]
+        return lines
+
     def impl(self, case):
         if not self._valid(case): raise Skip()
         if not hasattr(self, "rank_m"): self.setup("quick")
+        if case.get("kind") == "keys":
+            v, flows, gens = self._keys_case(case)
+            out = [show_key(g.generate(f)) for sl, g in gens for f in flows]
+            for sl, g in gens:
+                ks = [g.generate(f) for f in flows]
+                out += ["1" if a <= b else "0" for a in ks for b in ks]
+            return {"keys": out}
         flows = [make_flow(k) for k in case["pool"]]
         ident = {id(f): i for i, f in enumerate(flows)}
         byid = lambda f: ident.get(id(f), "?")
@@ -272,6 +340,7 @@ class Check(PropertyCheck):
 
     # ---------------------------------------------------------------- the property as a predicate
     def oracle(self, case, obs):
+        if case.get("kind") == "keys": return []
         fails = []
         # flows that changed since the view last evaluated them (an unreported `mutate`); the view cannot know their
         # current key / filter verdict, so for them only "listed => stored, once" is demanded.  A flow is current again
@@ -342,12 +411,14 @@ class Check(PropertyCheck):
     # ---------------------------------------------------------------- model tie
     def model_lines(self, case):
         if not self._valid(case): raise Skip()
+        if case.get("kind") == "keys": return self._keys_lines(case)
         key = json.dumps(case, sort_keys=True)
         if getattr(self, "_stash", (None, None))[0] != key: self.impl(case)
         self._groups = [len(g) for g in self._stash[1]]
         return ["reset"] + [l for g in self._stash[1] for l in g]
 
     def model_obs(self, case, replies):
+        if case.get("kind") == "keys": return replies
         # one real call with a list argument = several single-flow model operations: signals are concatenated,
         # the state is the one after the last of them, the error flag is their disjunction
         key = json.dumps(case, sort_keys=True)
@@ -366,16 +437,19 @@ class Check(PropertyCheck):
 
     def impl_view(self, case, obs):
         if "__exc__" in obs: return obs
+        if case.get("kind") == "keys": return obs["keys"]
         ids = lambda l: ",".join(map(str, l)) if l else "-"
         return [f"view={ids(s['view'])} focus={'none' if s['focus'] is None else s['focus']} store={ids(s['store'])} "
                 f"settings={ids(s['settings'])} sigs={ids(s['sigs'])} err={1 if s['err'] else 0}" for s in obs["steps"]]
 
     def classify(self, case, obs):
+        if case.get("kind") == "keys": return None if "__exc__" in obs else json.dumps(obs["keys"])
         if "__exc__" in obs or not any(s["view"] for s in obs["steps"]): return None
         return json.dumps([(s["op"], s["view"], s["focus"], s["sigs"]) for s in obs["steps"]])
 
     def branches(self, case, obs):
         if "__exc__" in obs: return ["impl-raised"]
+        if case.get("kind") == "keys": return ["keys:" + k for k in case["pool"]]
         out = []
         for s in obs["steps"]:
             out.append("op:" + s["op"] + (":err" if s["err"] else ""))
@@ -385,6 +459,7 @@ class Check(PropertyCheck):
         return out
 
     def shrink_candidates(self, case):
+        if case.get("kind") == "keys": return
         ops = case["ops"]
         for i in range(len(ops)):
             yield {**case, "ops": ops[:i] + ops[i + 1:]}
@@ -394,6 +469,7 @@ class Check(PropertyCheck):
                     yield {**case, "ops": ops[:i] + [[o[0], o[1][:j] + o[1][j + 1:]]] + ops[i + 1:]}
 
     def neighbours(self, case, rng):
+        if case.get("kind") == "keys": return
         n = len(case["pool"])
         for _ in range(400):
             ops = [list(o) for o in case["ops"]]
